@@ -5,6 +5,7 @@ import TantivyModel.Proofs.SSTable.OrdToTerm
 import TantivyModel.Proofs.SSTable.RangeDict
 import TantivyModel.Proofs.SSTable.DeltaScan
 import TantivyModel.Proofs.SSTable.Prune
+import TantivyModel.Proofs.SSTable.SearchDict
 /-!
 # C15 — Term dictionaries behave as ordered maps from byte strings
 
@@ -256,6 +257,47 @@ theorem C15_block_pruning_sound {σ} (A : Automaton σ) (hA : A.CanMatchSound) (
     (hacc : A.accepts key = true) : canBlockMatch A prevSep sep = true :=
   canBlockMatch_sound A hA prevSep sep key h1 h2 hacc
 
+theorem search_eq_filter {σ V} (A : Automaton σ) (m : Assoc V) (lo hi : Bound) :
+    search A m lo hi = m.filter (fun e => passes A lo hi e.1) := by
+  unfold search range passes
+  rw [List.filter_filter]
+  congr 1
+  funext e
+  cases matchLo lo e.1 <;> cases matchHi hi e.1 <;> cases A.accepts e.1 <;> rfl
+
+/-- `Dictionary::search(A).{ge,gt,le,lt}.into_stream()` — separator walk with the real
+`can_block_match_automaton` pruning, block-id range filter, `Streamer::advance` — for EVERY
+automaton whose `can_match` is sound, every sorted map, block length and bounds:
+the streamed keys and values are exactly `filter accepts` of the range, in order (no accepted key
+is ever dropped by pruning), and the ordinal reported with each entry is
+`first_term + its position among the entries READ`, i.e. among the entries of the blocks that
+were not pruned. That is the true ordinal only while no block has been skipped: the explicit
+deviation is the known finding C15:search-stream-term-ord-after-pruned-block
+(`C15_search_ordinal_counterexample`). -/
+theorem C15_automaton_stream {σ V} (A : Automaton σ) (hA : A.CanMatchSound) (blockLen : Nat)
+    (m : Assoc V) (hs : SortedMap m) (lo hi : Bound) :
+    ((build blockLen m).search A lo hi).map (fun p => (p.2.1, p.2.2)) = search A m lo hi ∧
+    (build blockLen m).search A lo hi =
+      ((((((build blockLen m).searchBlocks A lo hi).map (·.entries)).flatten).zipIdx
+          ((build blockLen m).firstTerm lo)).filter
+        (fun p => matchLo lo p.1.1 && matchHi hi p.1.1 && A.accepts p.1.1)).map
+        (fun p => (p.2, p.1.1, p.1.2)) := by
+  have v := build_view blockLen m hs
+  rw [search_eq_filter]
+  unfold Dict.search
+  rcases searchBlocks_pruned A hA blockLen m hs lo hi with hp | ⟨hnil, hnone⟩
+  · have hflat : ((build blockLen m).blockList.map (·.entries)).flatten = m := v.flat
+    have := pruned_stream A lo hi _ _ hp (by rw [hflat]; exact hs) ((build blockLen m).firstTerm lo)
+    rw [hflat] at this
+    exact ⟨this.2, this.1⟩
+  · rw [hnil]
+    simp only [List.map_nil, List.flatten_nil, scanSearch, List.zipIdx_nil, List.filter_nil]
+    refine ⟨?_, trivial⟩
+    symm
+    rw [List.filter_eq_nil_iff]
+    intro e he
+    simp [hnone e he]
+
 /-- the ordinal misreport is a property of the mechanism, not of an input: skipping a block
 makes the scan count from the wrong base -/
 theorem C15_search_ordinal_counterexample :
@@ -274,10 +316,6 @@ theorem C15_inverted_range_counterexample :
 
 /- Still to prove (full statements; the harness compares these operations on every run):
    C15_prefix_range           : isPrefixOf p k ↔ matchLo (prefixBounds p).1 k ∧ matchHi (prefixBounds p).2 k
-   C15_automaton_stream       : A.CanMatchSound → keys/values of (build L m).search A lo hi
-                                  = search A m lo hi: the assembly of C15_block_pruning_sound (proved),
-                                  C15_block_separators (proved) and C15_automaton_stream_partial (proved)
-                                  over the index walk `keptBlocks` + block-id range filter is not done yet
    C15_merge                  : (∀ m ∈ ms, SortedMap m) → kwayMerge comb ms = mergeSpec comb ms
                                   ∧ ordinal tables total and strictly monotone -/
 
